@@ -259,6 +259,9 @@ func (g gen) genRev(emit func(vh.Case)) {
 					st %= maxTip + 1
 				}
 				k := g.pick(0, 1, 3, 10, 64, 1024)
+				if r < 12 { // on every run: empty, one-element and full blocks at every place of short lists
+					k = []int{0, 3, 1024, 1}[(r/6+i+r)%4]
+				}
 				pos := make([]int16, k)
 				for j, p := range g.e.Rnd.Perm(1024)[:k] {
 					pos[j] = int16(p)
